@@ -353,7 +353,7 @@ pub fn leg_interleave(thorough: bool) -> Value {
     // every accepted version must be on the single chain and no request may fail merely because of the overlap
     let mut stress_runs = 0usize;
     for backend in ["in-memory", "sqlite-instances"] {
-        for round in 0..(if thorough { 6 } else { 2 }) {
+        for round in 0..(if backend == "in-memory" { if thorough { 6 } else { 3 } } else if thorough { 6 } else { 2 }) {
             stress_runs += 1;
             let cl = Uuid::new_v4();
             let dir = tempfile::Builder::new().prefix("tcss-stress-").tempdir_in(if std::path::Path::new("/dev/shm").is_dir() { "/dev/shm" } else { "/tmp" }).unwrap();
@@ -368,15 +368,19 @@ pub fn leg_interleave(thorough: bool) -> Value {
                 if backend == "in-memory" { Box::new(Shared(mem.clone())) } else { Box::new(SqliteStorage::new(dir.path()).unwrap()) }
             };
             let threads = 4usize;
-            let per = if thorough { 30usize } else { 12usize };
+            // the in-memory backend answers in well under a microsecond: many more requests are needed for two of them to overlap at all
+            let per = if backend == "in-memory" { if thorough { 20000usize } else { 6000usize } } else if thorough { 30usize } else { 12usize };
             let accepted: Arc<Mutex<Vec<Uuid>>> = Arc::new(Mutex::new(vec![]));
             let errors: Arc<Mutex<Vec<String>>> = Arc::new(Mutex::new(vec![]));
+            let barrier = Arc::new(std::sync::Barrier::new(threads));
             std::thread::scope(|sc| {
                 for t in 0..threads {
                     let server = Server::new(ServerConfig::default(), Dyn2(mk()));
                     let accepted = accepted.clone();
                     let errors = errors.clone();
+                    let barrier = barrier.clone();
                     sc.spawn(move || {
+                        barrier.wait(); // all threads start together
                         let mut parent = NIL_VERSION_ID;
                         for i in 0..per {
                             // the handler's behaviour for a possibly unknown client, then AddVersion on what we believe is the latest
@@ -425,13 +429,28 @@ pub fn leg_interleave(thorough: bool) -> Value {
             let acc = accepted.lock().unwrap().clone();
             let errs = errors.lock().unwrap().clone();
             let probe = mk();
-            let mut uni = acc.clone();
-            uni.push(NIL_VERSION_ID);
-            let fin = absfn::via_api(probe.as_ref(), cl, &uni).unwrap();
             let mut problem = None;
             if !errs.is_empty() {
                 problem = Some(format!("{} request(s) failed merely because of overlap, e.g. {:?}", errs.len(), &errs[..errs.len().min(2)]));
+            } else if backend == "in-memory" {
+                // long run: a linear walk from nil instead of the complete state comparison
+                let mut t = probe.txn(cl).unwrap();
+                let (mut p, mut n) = (NIL_VERSION_ID, 0usize);
+                while let Some(v) = t.get_version_by_parent(p).unwrap() {
+                    n += 1;
+                    p = v.version_id;
+                    if n > acc.len() + 1 {
+                        break;
+                    }
+                }
+                let latest = t.get_client().unwrap().map(|c| c.latest_version_id);
+                if n != acc.len() || latest != Some(p) {
+                    problem = Some(format!("{} versions were acknowledged as accepted but the walk from nil finds {} and ends at {p} (latest pointer {latest:?}): an accepted version was lost or orphaned", acc.len(), n));
+                }
             } else {
+                let mut uni = acc.clone();
+                uni.push(NIL_VERSION_ID);
+                let fin = absfn::via_api(probe.as_ref(), cl, &uni).unwrap();
                 match chain_wf(&fin) {
                     Err(e) => problem = Some(format!("after {threads} threads x {per} AddVersions the stored state is not one chain: {e}")),
                     Ok(n) => {
